@@ -1724,6 +1724,7 @@ fn main() {
     let mut sample_classes: BTreeMap<(String, String), u32> = BTreeMap::new();
     let (mut panics_reported, mut skipped, mut evaluations, mut unfelt_no_baseline) = (0u64, 0u64, 0u64, 0u64);
     let mut slowest: (u64, String) = (0, String::new());
+    let mut cyclic_ok: Vec<String> = vec![];
     for (i, (c, r)) in cases.iter().zip(&results).enumerate() {
         let Some(o) = r else {
             skipped += 1;
@@ -1750,6 +1751,9 @@ fn main() {
         }
         if o.kind == Kind::ReportedPanic {
             panics_reported += 1;
+        }
+        if c.fault == "component-cycle" && o.kind == Kind::OkFont {
+            cyclic_ok.push(format!("{} flags={}", c.site, FLAGSETS[c.flagset].0));
         }
         if let Some(m) = &o.panic_msg {
             *panics.entry(format!("[{} / {}] {m}", c.class, c.fault)).or_default() += 1;
@@ -1821,6 +1825,7 @@ fn main() {
     );
     rep.set("felt_by_class", json!(felt.iter().map(|(k, (a, b))| (k.clone(), json!({"felt": a, "cases": b}))).collect::<BTreeMap<_, _>>()));
     rep.set("ok_fonts_without_baseline_to_compare", unfelt_no_baseline);
+    rep.set("cyclic_component_graphs_that_gave_a_valid_font", json!({"count": cyclic_ok.len(), "first": cyclic_ok.iter().take(20).collect::<Vec<_>>()}));
     rep.set("outcomes_by_class", json!(by_class));
     rep.set("outcomes_by_kind", json!(by_kind));
     rep.set("panics_reported_as_errors", panics_reported);
